@@ -40,111 +40,6 @@ func runWriteToSim(c *Ctx, ruleClose, ruleCount, rulePromo, ruleSize, ruleDelta 
 		return
 	}
 	c.Fn(FuncName(wt))
-	ex := NewExec(p)
-	ex.WriterContract = true
-	ex.Unroll = 8
-	st := ex.NewState()
-	k8 := func(v int64) Val { return mkConst(v, 8, false) }
-	data := func(n string) *IntV {
-		s := ex.syms.Get(n, 8, false)
-		st.refineSym(s, 0, 127)
-		return mkSym(s)
-	}
-	eot := []Val{k8(0xFF), k8(0x2F), k8(0x00)}
-	tracks := [][]wsEvent{
-		{{0x81, []Val{k8(0x91), data("k1"), data("v1")}}, {0x4000, eot}},                                    // closed; two- and three-byte deltas
-		{{0x05, []Val{k8(0x82), data("k2"), data("v2")}}},                                                   // open: must be closed by WriteTo
-		{{0x00, []Val{k8(0xC3), data("p3")}}, {0x7F, []Val{k8(0xB3), data("c3"), data("w3")}}, {0x00, eot}}, // closed
-		// closed; the remaining kinds of events a file can hold: poly and channel pressure, pitch bend, a text meta event,
-		// a complete sysex and an F7 (escape / continuation) packet — a writer that drops or re-frames one kind shows here
-		{{0x03, []Val{k8(0xA4), data("k4"), data("v4")}}, {0x00, []Val{k8(0xD5), data("p5")}}, {0x02, []Val{k8(0xE6), data("l6"), data("m6")}},
-			{0x00, []Val{k8(0xFF), k8(0x01), k8(0x02), data("t1"), data("t2")}}, {0x01, []Val{k8(0xF0), data("x1"), data("x2"), k8(0xF7)}},
-			{0x00, []Val{k8(0xF7), data("y1")}}, {0x05, eot}},
-	}
-	var tvals []Val
-	for _, tr := range tracks {
-		var evVals []Val
-		for _, e := range tr {
-			ev := ex.zeroOf(evT).(*StructV)
-			ev.Fields[fieldIndex(ev.T, "Delta")] = mkConst(e.delta, 32, false)
-			ev.Fields[fieldIndex(ev.T, "Message")] = ex.mkBytes(st, "m", e.msg, false, 0)
-			evVals = append(evVals, ev)
-		}
-		tid := ex.newObj(st, &ArrayV{Elem: evT, Segs: []Seg{{Elems: evVals}}}, nil)
-		n := mkConst(int64(len(tr)), 64, true)
-		tvals = append(tvals, &SliceV{Obj: tid, Off: mkConst(0, 64, true), Len: n, Cap: n})
-	}
-	tsid := ex.newObj(st, &ArrayV{Elem: trackT, Segs: []Seg{{Elems: tvals}}}, nil)
-	nT := mkConst(int64(len(tracks)), 64, true)
-	sp := ex.newZeroObject(st, smfT)
-	fsym := ex.syms.Get("format", 16, false)
-	st.refineSym(fsym, 0, 2)
-	stale := ex.syms.Get("staleCount", 16, false)
-	qs := ex.syms.Get("resolution", 16, false)
-	st.refineSym(qs, 1, 32767)
-	okSet := ex.setField(st, sp, "Tracks", &SliceV{Obj: tsid, Off: mkConst(0, 64, true), Len: nT, Cap: nT}) &&
-		ex.setField(st, sp, "format", mkSym(fsym)) &&
-		ex.setField(st, sp, "numTracks", mkSym(stale)) &&
-		ex.setField(st, sp, "NoRunningStatus", &BoolV{Known: true, Val: true}) &&
-		ex.setField(st, sp, "TimeFormat", &IfaceV{Dyn: p.namedType("smf", "MetricTicks"), V: mkSym(qs)})
-	if !okSet {
-		c.Unk(first, "WriteTo simulation: fields of SMF (Tracks, format, track count, NoRunningStatus, TimeFormat)", "-", "not resolved")
-		return
-	}
-	// the value may have been written, read or queried before and its exported Tracks changed since: every other
-	// unexported field (caches, "finished" latches) holds an arbitrary value left over from earlier calls
-	if sv, ok := st.heap[sp.Obj].(*StructV); ok {
-		keep := map[int]bool{fieldIndex(sv.T, "format"): true, fieldIndex(sv.T, "numTracks"): true}
-		for i := 0; i < sv.T.NumFields(); i++ {
-			f := sv.T.Field(i)
-			if f.Exported() || keep[i] {
-				continue
-			}
-			sv.Fields[i] = ex.topOf(st, f.Type(), "left-over:"+f.Name())
-		}
-	}
-	if os.Getenv("ABSDEBUG") != "" {
-		forkProfile = map[string]int{}
-		defer func() {
-			for k, v := range forkProfile {
-				if v > 50 {
-					fmt.Fprintf(os.Stderr, "fork %6d %s\n", v, k)
-				}
-			}
-			forkProfile = nil
-		}()
-	}
-	outs := ex.Call(st, wt, []Val{sp, &IfaceV{Unk: true, NonNil: true}}, nil)
-	if ex.Budget || len(outs) == 0 {
-		c.Unk(first, "WriteTo simulation", p.Pos(wt.Pos()), fmt.Sprintf("abstract interpretation did not complete (budget=%v outcomes=%d stats=%+v)", ex.Budget, len(outs), ex.Stats))
-		return
-	}
-	for u := range ex.Unsupported {
-		c.Unk(first, "WriteTo simulation: "+u, p.Pos(wt.Pos()), "unmodelled construct on the write path")
-		return
-	}
-	// expected chunk bodies (running status off)
-	body := func(tr []wsEvent, autoClose bool) []Val {
-		var b []Val
-		for _, e := range tr {
-			b = append(b, vlqConst(e.delta)...)
-			if c0, isK := e.msg[0].(*IntV); isK {
-				if v, _ := st.ConstOf(c0); v == 0xF0 || v == 0xF7 {
-					// SMF framing of sysex / escape events: status, length of what follows as VLQ, the bytes
-					b = append(b, e.msg[0])
-					b = append(b, vlqConst(int64(len(e.msg)-1))...)
-					b = append(b, e.msg[1:]...)
-					continue
-				}
-			}
-			b = append(b, e.msg...)
-		}
-		if autoClose {
-			b = append(b, k8(0))
-			b = append(b, eot...)
-		}
-		return b
-	}
 	type verdict struct {
 		ok  bool
 		why string
@@ -152,130 +47,243 @@ func runWriteToSim(c *Ctx, ruleClose, ruleCount, rulePromo, ruleSize, ruleDelta 
 	vClose, vCount, vPromo, vSize, vDelta := verdict{true, ""}, verdict{true, ""}, verdict{true, ""}, verdict{true, ""}, verdict{true, ""}
 	nSuccess, nFailed := 0, 0
 	vFail := verdict{true, ""}
-	for _, o := range outs {
-		if o.Panic || len(problemEvents(o.St.Events)) > 0 {
-			vClose = verdict{false, "WriteTo may panic on the representative file: " + o.Msg + fmtEvents(problemEvents(o.St.Events))}
-			continue
+	var tracks [][]wsEvent
+	// the file is written twice: without a logger and with one (any non-nil Logger; its Printf only looks at its
+	// arguments) — what is logged must not change what is written
+	for _, withLogger := range []bool{false, true} {
+		ex := NewExec(p)
+		ex.WriterContract = true
+		ex.Unroll = 12
+		st := ex.NewState()
+		k8 := func(v int64) Val { return mkConst(v, 8, false) }
+		data := func(n string) *IntV {
+			s := ex.syms.Get(n, 8, false)
+			st.refineSym(s, 0, 127)
+			return mkSym(s)
 		}
-		ev, _ := o.Ret[1].(*IfaceV)
-		// C10: the destination rejected (part of) some Write on this path -> the call must end in a definite error
-		for _, e := range o.St.Events {
-			if e.Kind == "sim:write-failed" {
-				nFailed++
-				if ev == nil || ev.Nil || (ev.Unk && !ev.NonNil) {
-					vFail = verdict{false, "the destination failed at " + e.Pos + " (error or short write) and WriteTo returns " + valString(o.Ret[1]) + ": the failure is swallowed [" + outcomeWitness(o) + "]"}
+		eot := []Val{k8(0xFF), k8(0x2F), k8(0x00)}
+		tracks = [][]wsEvent{
+			{{0x81, []Val{k8(0x91), data("k1"), data("v1")}}, {0x4000, eot}},                                    // closed; two- and three-byte deltas
+			{{0x05, []Val{k8(0x82), data("k2"), data("v2")}}},                                                   // open: must be closed by WriteTo
+			{{0x00, []Val{k8(0xC3), data("p3")}}, {0x7F, []Val{k8(0xB3), data("c3"), data("w3")}}, {0x00, eot}}, // closed
+			// closed; the remaining kinds of events a file can hold: poly and channel pressure, pitch bend, a text meta event,
+			// a complete sysex, an F7 (escape / continuation) packet and a meta event of an undefined type — a writer that drops or re-frames one kind shows here
+			{{0x03, []Val{k8(0xA4), data("k4"), data("v4")}}, {0x00, []Val{k8(0xD5), data("p5")}}, {0x02, []Val{k8(0xE6), data("l6"), data("m6")}},
+				{0x00, []Val{k8(0xFF), k8(0x01), k8(0x02), data("t1"), data("t2")}}, {0x01, []Val{k8(0xF0), data("x1"), data("x2"), k8(0xF7)}},
+				{0x00, []Val{k8(0xF7), data("y1")}}, {0x00, []Val{k8(0xFF), k8(0x60), k8(0x01), data("u1")}}, {0x05, eot}}, // FF 60: a meta type the library has no name for
+		}
+		var tvals []Val
+		for _, tr := range tracks {
+			var evVals []Val
+			for _, e := range tr {
+				ev := ex.zeroOf(evT).(*StructV)
+				ev.Fields[fieldIndex(ev.T, "Delta")] = mkConst(e.delta, 32, false)
+				ev.Fields[fieldIndex(ev.T, "Message")] = ex.mkBytes(st, "m", e.msg, false, 0)
+				evVals = append(evVals, ev)
+			}
+			tid := ex.newObj(st, &ArrayV{Elem: evT, Segs: []Seg{{Elems: evVals}}}, nil)
+			n := mkConst(int64(len(tr)), 64, true)
+			tvals = append(tvals, &SliceV{Obj: tid, Off: mkConst(0, 64, true), Len: n, Cap: n})
+		}
+		tsid := ex.newObj(st, &ArrayV{Elem: trackT, Segs: []Seg{{Elems: tvals}}}, nil)
+		nT := mkConst(int64(len(tracks)), 64, true)
+		sp := ex.newZeroObject(st, smfT)
+		fsym := ex.syms.Get("format", 16, false)
+		st.refineSym(fsym, 0, 2)
+		stale := ex.syms.Get("staleCount", 16, false)
+		qs := ex.syms.Get("resolution", 16, false)
+		st.refineSym(qs, 1, 32767)
+		okSet := ex.setField(st, sp, "Tracks", &SliceV{Obj: tsid, Off: mkConst(0, 64, true), Len: nT, Cap: nT}) &&
+			ex.setField(st, sp, "format", mkSym(fsym)) &&
+			ex.setField(st, sp, "numTracks", mkSym(stale)) &&
+			ex.setField(st, sp, "NoRunningStatus", &BoolV{Known: true, Val: true}) &&
+			ex.setField(st, sp, "TimeFormat", &IfaceV{Dyn: p.namedType("smf", "MetricTicks"), V: mkSym(qs)})
+		if withLogger {
+			okSet = okSet && ex.setField(st, sp, "Logger", &IfaceV{Unk: true, NonNil: true})
+		}
+		if !okSet {
+			c.Unk(first, "WriteTo simulation: fields of SMF (Tracks, format, track count, NoRunningStatus, TimeFormat)", "-", "not resolved")
+			return
+		}
+		// the value may have been written, read or queried before and its exported Tracks changed since: every other
+		// unexported field (caches, "finished" latches) holds an arbitrary value left over from earlier calls
+		if sv, ok := st.heap[sp.Obj].(*StructV); ok {
+			keep := map[int]bool{fieldIndex(sv.T, "format"): true, fieldIndex(sv.T, "numTracks"): true}
+			for i := 0; i < sv.T.NumFields(); i++ {
+				f := sv.T.Field(i)
+				if f.Exported() || keep[i] {
+					continue
 				}
-				break
+				sv.Fields[i] = ex.topOf(st, f.Type(), "left-over:"+f.Name())
 			}
 		}
-		if ev == nil || !ev.Nil {
-			// a destination failure (what is reported as size then is not part of the statement)
-			continue
-		}
-		nSuccess++
-		ws := ex.writesOf(o)
-		var all []Val
-		flatOK := true
-		var total int64
-		for _, w := range ws {
-			el, okf := flatElems(w)
-			if !okf {
-				flatOK = false
-			}
-			all = append(all, el...)
-			total += int64(len(el))
-		}
-		if !flatOK {
-			vCount = verdict{false, "bytes handed to the destination are not tracked"}
-			continue
-		}
-		get := func(i int) *IntV {
-			if i < len(all) {
-				iv, _ := all[i].(*IntV)
-				return iv
-			}
-			return nil
-		}
-		isC := func(i int, v int64) bool {
-			iv := get(i)
-			if iv == nil {
-				return false
-			}
-			c, ok := o.St.ConstOf(iv)
-			return ok && c == v
-		}
-		// header: MThd 00000006 ff ff nn nn qq qq
-		hdr := "MThd"
-		okH := len(all) >= 14
-		for i := 0; okH && i < 4; i++ {
-			okH = isC(i, int64(hdr[i]))
-		}
-		okH = okH && isC(4, 0) && isC(5, 0) && isC(6, 0) && isC(7, 6)
-		if !okH {
-			vCount = verdict{false, "output does not start with the 14-byte MThd chunk"}
-			continue
-		}
-		if !(isC(10, 0) && isC(11, int64(len(tracks)))) {
-			vCount = verdict{false, fmt.Sprintf("header declares %s %s tracks for a value holding %d tracks (cached count field = arbitrary stale value): the count is not taken from len(Tracks)", valString(get(10)), valString(get(11)), len(tracks))}
-		}
-		// format byte: 1 if the source format was 0 (3 tracks), else unchanged
-		f := mkSym(fsym)
-		wantF := f
-		if z, k := o.St.Decide("==", f, mkConst(0, 16, false)); k && z {
-			wantF = mkConst(1, 16, false)
-		} else if !k {
-			vPromo = verdict{false, "the written format does not depend on whether the source format is 0"}
-		}
-		fb := o.St.beBytes(wantF, 2)
-		if get(8) == nil || get(9) == nil || !o.St.sameInt(get(8), fb[0]) || !o.St.sameInt(get(9), fb[1]) {
-			vPromo = verdict{false, fmt.Sprintf("format field written as %s %s for source format %s with %d tracks (expected: 0 -> 1, 1 and 2 unchanged)", valString(get(8)), valString(get(9)), o.St.describe(f), len(tracks))}
-		}
-		// chunks
-		pos := 14
-		for ti, tr := range tracks {
-			last := tr[len(tr)-1].msg
-			closed := len(last) == 3 && last[0].(*IntV).T.C == 0xFF && last[1].(*IntV).T.C == 0x2F
-			want := body(tr, !closed)
-			mtrk := "MTrk"
-			okC := pos+8 <= len(all)
-			for i := 0; okC && i < 4; i++ {
-				okC = isC(pos+i, int64(mtrk[i]))
-			}
-			if !okC {
-				vCount = verdict{false, fmt.Sprintf("no MTrk chunk for track %d: the chunk loop does not flush one chunk per track of the value", ti)}
-				break
-			}
-			okL := isC(pos+4, 0) && isC(pos+5, 0) && isC(pos+6, 0) && isC(pos+7, int64(len(want)))
-			got := all[minInt(pos+8, len(all)):minInt(pos+8+len(want), len(all))]
-			same := len(got) == len(want)
-			for i := 0; same && i < len(want); i++ {
-				gi, _ := got[i].(*IntV)
-				same = gi != nil && o.St.sameInt(gi, want[i].(*IntV))
-			}
-			if !okL || !same {
-				if !closed {
-					vClose = verdict{false, fmt.Sprintf("track %d was left open by the caller: its chunk is %s, expected the events followed by 00 FF 2F 00 (WriteTo closes open tracks before serialising)", ti, arrayStringIn(o.St, &ArrayV{Segs: []Seg{{Elems: all[minInt(pos, len(all)):minInt(pos+8+len(want)+4, len(all))]}}}))}
-				} else {
-					vClose = verdict{false, fmt.Sprintf("closed track %d is not written as its own events (closed twice, or events altered): %s", ti, arrayStringIn(o.St, &ArrayV{Segs: []Seg{{Elems: all[minInt(pos, len(all)):minInt(pos+8+len(want)+4, len(all))]}}}))}
+		if os.Getenv("ABSDEBUG") != "" {
+			forkProfile = map[string]int{}
+			defer func() {
+				for k, v := range forkProfile {
+					if v > 50 {
+						fmt.Fprintf(os.Stderr, "fork %6d %s\n", v, k)
+					}
 				}
-				vDelta = verdict{false, fmt.Sprintf("chunk of track %d is %s; expected each event as VLQ(its own delta) followed by its bytes, once: %s", ti, arrayStringIn(o.St, &ArrayV{Segs: []Seg{{Elems: all[minInt(pos+8, len(all)):minInt(pos+8+len(want)+4, len(all))]}}}), arrayStringIn(o.St, &ArrayV{Segs: []Seg{{Elems: want}}}))}
-				break
+				forkProfile = nil
+			}()
+		}
+		outs := ex.Call(st, wt, []Val{sp, &IfaceV{Unk: true, NonNil: true}}, nil)
+		if ex.Budget || len(outs) == 0 {
+			c.Unk(first, "WriteTo simulation", p.Pos(wt.Pos()), fmt.Sprintf("abstract interpretation did not complete (budget=%v outcomes=%d stats=%+v)", ex.Budget, len(outs), ex.Stats))
+			return
+		}
+		for u := range ex.Unsupported {
+			c.Unk(first, "WriteTo simulation: "+u, p.Pos(wt.Pos()), "unmodelled construct on the write path")
+			return
+		}
+		// expected chunk bodies (running status off)
+		body := func(tr []wsEvent, autoClose bool) []Val {
+			var b []Val
+			for _, e := range tr {
+				b = append(b, vlqConst(e.delta)...)
+				if c0, isK := e.msg[0].(*IntV); isK {
+					if v, _ := st.ConstOf(c0); v == 0xF0 || v == 0xF7 {
+						// SMF framing of sysex / escape events: status, length of what follows as VLQ, the bytes
+						b = append(b, e.msg[0])
+						b = append(b, vlqConst(int64(len(e.msg)-1))...)
+						b = append(b, e.msg[1:]...)
+						continue
+					}
+				}
+				b = append(b, e.msg...)
 			}
-			pos += 8 + len(want)
+			if autoClose {
+				b = append(b, k8(0))
+				b = append(b, eot...)
+			}
+			return b
 		}
-		if vClose.ok && vCount.ok && pos != len(all) {
-			vCount = verdict{false, fmt.Sprintf("%d bytes follow the last track chunk", len(all)-pos)}
+		for _, o := range outs {
+			if o.Panic || len(problemEvents(o.St.Events)) > 0 {
+				vClose = verdict{false, "WriteTo may panic on the representative file: " + o.Msg + fmtEvents(problemEvents(o.St.Events))}
+				continue
+			}
+			ev, _ := o.Ret[1].(*IfaceV)
+			// C10: the destination rejected (part of) some Write on this path -> the call must end in a definite error
+			for _, e := range o.St.Events {
+				if e.Kind == "sim:write-failed" {
+					nFailed++
+					if ev == nil || ev.Nil || (ev.Unk && !ev.NonNil) {
+						vFail = verdict{false, "the destination failed at " + e.Pos + " (error or short write) and WriteTo returns " + valString(o.Ret[1]) + ": the failure is swallowed [" + outcomeWitness(o) + "]"}
+					}
+					break
+				}
+			}
+			if ev == nil || !ev.Nil {
+				// a destination failure (what is reported as size then is not part of the statement)
+				continue
+			}
+			nSuccess++
+			ws := ex.writesOf(o)
+			var all []Val
+			flatOK := true
+			var total int64
+			for _, w := range ws {
+				el, okf := flatElems(w)
+				if !okf {
+					flatOK = false
+				}
+				all = append(all, el...)
+				total += int64(len(el))
+			}
+			if !flatOK {
+				vCount = verdict{false, "bytes handed to the destination are not tracked"}
+				continue
+			}
+			get := func(i int) *IntV {
+				if i < len(all) {
+					iv, _ := all[i].(*IntV)
+					return iv
+				}
+				return nil
+			}
+			isC := func(i int, v int64) bool {
+				iv := get(i)
+				if iv == nil {
+					return false
+				}
+				c, ok := o.St.ConstOf(iv)
+				return ok && c == v
+			}
+			// header: MThd 00000006 ff ff nn nn qq qq
+			hdr := "MThd"
+			okH := len(all) >= 14
+			for i := 0; okH && i < 4; i++ {
+				okH = isC(i, int64(hdr[i]))
+			}
+			okH = okH && isC(4, 0) && isC(5, 0) && isC(6, 0) && isC(7, 6)
+			if !okH {
+				vCount = verdict{false, "output does not start with the 14-byte MThd chunk"}
+				continue
+			}
+			if !(isC(10, 0) && isC(11, int64(len(tracks)))) {
+				vCount = verdict{false, fmt.Sprintf("header declares %s %s tracks for a value holding %d tracks (cached count field = arbitrary stale value): the count is not taken from len(Tracks)", valString(get(10)), valString(get(11)), len(tracks))}
+			}
+			// format byte: 1 if the source format was 0 (3 tracks), else unchanged
+			f := mkSym(fsym)
+			wantF := f
+			if z, k := o.St.Decide("==", f, mkConst(0, 16, false)); k && z {
+				wantF = mkConst(1, 16, false)
+			} else if !k {
+				vPromo = verdict{false, "the written format does not depend on whether the source format is 0"}
+			}
+			fb := o.St.beBytes(wantF, 2)
+			if get(8) == nil || get(9) == nil || !o.St.sameInt(get(8), fb[0]) || !o.St.sameInt(get(9), fb[1]) {
+				vPromo = verdict{false, fmt.Sprintf("format field written as %s %s for source format %s with %d tracks (expected: 0 -> 1, 1 and 2 unchanged)", valString(get(8)), valString(get(9)), o.St.describe(f), len(tracks))}
+			}
+			// chunks
+			pos := 14
+			for ti, tr := range tracks {
+				last := tr[len(tr)-1].msg
+				closed := len(last) == 3 && last[0].(*IntV).T.C == 0xFF && last[1].(*IntV).T.C == 0x2F
+				want := body(tr, !closed)
+				mtrk := "MTrk"
+				okC := pos+8 <= len(all)
+				for i := 0; okC && i < 4; i++ {
+					okC = isC(pos+i, int64(mtrk[i]))
+				}
+				if !okC {
+					vCount = verdict{false, fmt.Sprintf("no MTrk chunk for track %d: the chunk loop does not flush one chunk per track of the value", ti)}
+					break
+				}
+				okL := isC(pos+4, 0) && isC(pos+5, 0) && isC(pos+6, 0) && isC(pos+7, int64(len(want)))
+				got := all[minInt(pos+8, len(all)):minInt(pos+8+len(want), len(all))]
+				same := len(got) == len(want)
+				for i := 0; same && i < len(want); i++ {
+					gi, _ := got[i].(*IntV)
+					same = gi != nil && o.St.sameInt(gi, want[i].(*IntV))
+				}
+				if !okL || !same {
+					if !closed {
+						vClose = verdict{false, fmt.Sprintf("track %d was left open by the caller: its chunk is %s, expected the events followed by 00 FF 2F 00 (WriteTo closes open tracks before serialising)", ti, arrayStringIn(o.St, &ArrayV{Segs: []Seg{{Elems: all[minInt(pos, len(all)):minInt(pos+8+len(want)+4, len(all))]}}}))}
+					} else {
+						vClose = verdict{false, fmt.Sprintf("closed track %d is not written as its own events (closed twice, or events altered): %s", ti, arrayStringIn(o.St, &ArrayV{Segs: []Seg{{Elems: all[minInt(pos, len(all)):minInt(pos+8+len(want)+4, len(all))]}}}))}
+					}
+					vDelta = verdict{false, fmt.Sprintf("chunk of track %d is %s; expected each event as VLQ(its own delta) followed by its bytes, once: %s", ti, arrayStringIn(o.St, &ArrayV{Segs: []Seg{{Elems: all[minInt(pos+8, len(all)):minInt(pos+8+len(want)+4, len(all))]}}}), arrayStringIn(o.St, &ArrayV{Segs: []Seg{{Elems: want}}}))}
+					break
+				}
+				pos += 8 + len(want)
+			}
+			if vClose.ok && vCount.ok && pos != len(all) {
+				vCount = verdict{false, fmt.Sprintf("%d bytes follow the last track chunk", len(all)-pos)}
+			}
+			// size
+			sz, _ := o.Ret[0].(*IntV)
+			if sz == nil || !o.St.sameInt(o.St.Convert(sz, 64, true), mkConst(total, 64, true)) {
+				vSize = verdict{false, fmt.Sprintf("WriteTo reports %s bytes, %d were handed to the destination", valString(o.Ret[0]), total)}
+			}
 		}
-		// size
-		sz, _ := o.Ret[0].(*IntV)
-		if sz == nil || !o.St.sameInt(o.St.Convert(sz, 64, true), mkConst(total, 64, true)) {
-			vSize = verdict{false, fmt.Sprintf("WriteTo reports %s bytes, %d were handed to the destination", valString(o.Ret[0]), total)}
-		}
-	}
+	} // withLogger
 	if nSuccess == 0 {
 		vCount = verdict{false, "no successful outcome of WriteTo on the representative file"}
 	}
-	desc := fmt.Sprintf("representative file: 4 tracks (closed, open, closed, closed; all seven channel kinds, meta, sysex, F7 packet), symbolic format 0..2, arbitrary cached count, %d successful partition(s)", nSuccess)
+	desc := fmt.Sprintf("representative file: 4 tracks (closed, open, closed, closed; all seven channel kinds, meta, sysex, F7 packet), symbolic format 0..2, arbitrary cached count, without and with a logger, %d successful partition(s)", nSuccess)
 	if ruleClose != "" {
 		c.Check(vClose.ok && nSuccess > 0, ruleClose, "WriteTo closes open tracks, and only those (whole-file simulation)", p.Pos(wt.Pos()), desc, vClose.why)
 	}
